@@ -592,7 +592,7 @@ class Interp(Exec):
             c = {ast.Lt: ta < tb, ast.LtE: ta <= tb, ast.Gt: ta > tb, ast.GtE: ta >= tb}[type(op)]
             if isinstance(op, (ast.Lt, ast.Gt)):
                 raise Unsupported("strict inequality constraint")
-            return VConstr(c)
+            return VConstr(c, ta - tb if isinstance(op, ast.LtE) else tb - ta)
         if isinstance(a, NUM) and isinstance(b, NUM):
             ta = self.as_int(a) if isinstance(a, VBool) else a.t
             tb = self.as_int(b) if isinstance(b, VBool) else b.t
